@@ -42,7 +42,7 @@ def run_bfs(module, func, params, max_depth, pool, seed=0, max_states=None, dead
             stop_on_violation=True):
   rng = random.Random(seed)
   res = BfsResult()
-  t0 = time.time()
+  t0 = time.perf_counter()
   seen = {}
   frontier = [[]]
   root_done = False
@@ -90,10 +90,10 @@ def run_bfs(module, func, params, max_depth, pool, seed=0, max_states=None, dead
     if max_states and res.states >= max_states and frontier:
       res.capped = True
       break
-    if deadline and time.time() > deadline and frontier:
+    if deadline and time.perf_counter() > deadline and frontier:
       res.capped = True
       break
-  res.wall = time.time() - t0
+  res.wall = time.perf_counter() - t0
   return res
 
 
